@@ -100,6 +100,7 @@ type entry struct {
 	Legit   int    `json:"legit"`             // index of the legitimate mechanism message carried, or -1
 	Final   bool   `json:"final,omitempty"`   // that message is the mechanism's last one
 	Empty   bool   `json:"empty,omitempty"`   // no payload
+	Step    int    `json:"step,omitempty"`    // receiver workload: index of the multi-step mechanism's message
 	Mech    string `json:"mech,omitempty"`    // receiver workload: mechanism named by <auth/>
 	Payload string `json:"payload,omitempty"` // receiver workload: payload class
 }
@@ -196,6 +197,7 @@ var initAlphabet = []string{
 	"S0", "S=", "Sg", "Sx", // <success/>: empty, "=", garbage data, undecodable data
 	"C0", "C=", "Cg", "Cx", "Cr", // <challenge/>: empty, "=", garbage, undecodable, replay of the previous legitimate message
 	"F", "Ft", "A", // <failure/>, <failure/> with text, <abort/>
+	"Fi", "Fw", "Fe", // <failure/> with invalid-mechanism, mechanism-too-weak, temporary-auth-failure
 	"Ns", "Nc", "Nq", "Se", // success / challenge outside the SASL namespace, an IQ, a stream error
 	"T", "W", "Cm", "E", "Z", // text, whitespace, comment, EOF, </stream:stream>
 }
@@ -240,6 +242,7 @@ type initAdv struct {
 	log       []entry
 	srv       *saslpeer.Server
 	authMechs []string
+	authAt    []int // log length when each <auth/> arrived: an exchange starts there
 	payload   []byte
 	havePay   bool
 	legitIdx  int
@@ -339,6 +342,7 @@ func (a *initAdv) feed(delta []byte, idle bool) (reply []byte, eof bool) {
 		case ev.El.Name.Space == nsSASL && ev.El.Name.Local == "auth":
 			m := ev.El.Attr("mechanism")
 			a.authMechs = append(a.authMechs, m)
+			a.authAt = append(a.authAt, len(a.log))
 			a.payload, _ = b64dec(ev.El.Text())
 			a.havePay = true
 			a.legitIdx, a.complete = 0, false
@@ -479,6 +483,15 @@ func (a *initAdv) realise(kind string) (wire string, e entry, eof bool) {
 	case "Ft":
 		e.Carrier = "failure"
 		wire = sasl1("failure", "<made-up-condition/><text xml:lang='en'>no</text>")
+	case "Fi":
+		e.Carrier = "failure"
+		wire = sasl1("failure", "<invalid-mechanism/>")
+	case "Fw":
+		e.Carrier = "failure"
+		wire = sasl1("failure", "<mechanism-too-weak/>")
+	case "Fe":
+		e.Carrier = "failure"
+		wire = sasl1("failure", "<temporary-auth-failure/><text>try again</text>")
 	case "A":
 		e.Carrier = "abort"
 		wire = sasl1("abort", "")
@@ -577,6 +590,23 @@ func genInit(r *rand.Rand) *initScenario {
 		for i := 0; i < n; i++ {
 			if r.Intn(100) < 40 {
 				sc.Script = append(sc.Script, "L")
+			} else {
+				sc.Script = append(sc.Script, initAlphabet[r.Intn(len(initAlphabet))])
+			}
+		}
+	}
+	// a failure followed by more: several mechanisms configured, the first
+	// choice on offer, a later one not
+	if !sc.TLS && r.Intn(8) == 0 {
+		sc.ClientMechs = pickSubset(r, saslpeer.Names[:3], 2)
+		sc.Advertised = []string{sc.ClientMechs[0]}
+		if len(sc.ClientMechs) > 2 && r.Intn(2) == 0 {
+			sc.Advertised = append(sc.Advertised, sc.ClientMechs[2])
+		}
+		sc.Script = []string{[]string{"F", "Ft", "Fi", "Fi", "Fw", "Fe", "A"}[r.Intn(7)]}
+		for n := 1 + r.Intn(4); n > 0; n-- {
+			if r.Intn(2) == 0 {
+				sc.Script = append(sc.Script, []string{"L", "S0", "L", "Fi"}[r.Intn(4)])
 			} else {
 				sc.Script = append(sc.Script, initAlphabet[r.Intn(len(initAlphabet))])
 			}
@@ -1016,6 +1046,15 @@ func judgeInit(c *core.Case, sc *initScenario, adv *initAdv, res *negResult, s *
 	authnByNegotiate := res.called > 0 && res.err == nil && res.mask&xmpp.Authn != 0
 	authn := authnByNegotiate || state&xmpp.Authn != 0
 	steps := saslpeer.Steps(mech)
+	// the exchange that counts is the one started by the last <auth/>: what the
+	// peer said before it (a failure, say) ended an earlier exchange
+	from := 0
+	if k := len(adv.authAt); k > 0 {
+		from = min(adv.authAt[k-1], len(log))
+		if k > 1 {
+			c.Count("init_exchange_restarted_by_client", 1)
+		}
+	}
 	var ok bool
 	var reason string
 	lockstep := true
@@ -1028,9 +1067,9 @@ func judgeInit(c *core.Case, sc *initScenario, adv *initAdv, res *negResult, s *
 		if n > len(log) {
 			n = len(log)
 		}
-		ok, reason = acceptInitiator(log[:n], steps)
+		ok, reason = acceptInitiator(log[min(from, n):n], steps)
 	} else {
-		ok, reason = acceptAnyPrefix(log, steps)
+		ok, reason = acceptAnyPrefix(log[from:], steps)
 	}
 	if mech == "" {
 		ok, reason = false, "no-auth-sent"
@@ -1072,6 +1111,7 @@ var recvAlphabet = []string{
 	"auth-empty", "auth-eq", "auth-badb64", "auth-2parts", "auth-4parts", "auth-foreign",
 	"response", "response-legit", "abort", "failure", "success", "challenge", "iq",
 	"text", "ws", "comment", "eof", "close",
+	"xauth", "xauth-badpw", "xresp", "xresp-bad", // the application-defined multi-step mechanism
 }
 
 type recvScenario struct {
@@ -1080,6 +1120,7 @@ type recvScenario struct {
 	Script      []string `json:"script"`
 	Perm        string   `json:"perm"` // match | always | never | flip
 	Chunk       int      `json:"chunk,omitempty"`
+	TestSteps   int      `json:"test_mechanism_steps,omitempty"` // > 0: ServerMechs may name X-VERIF-STEPS
 
 	Log        []entry    `json:"delivered,omitempty"`
 	PermLog    []permCall `json:"perm_calls,omitempty"`
@@ -1106,12 +1147,57 @@ type recvAdv struct {
 	log        []entry
 	advertised []string
 	serverEls  []string
+	xpass      string
+	xstep      int // next step of the running X-VERIF-STEPS exchange
 	successAt  int // number of delivered actions when <success/> appeared, -1 if never
 	replyAfter map[int][]string
 	wireBad    string
 }
 
 const rightPass = "right-pass"
+
+// testMechName is an application-defined mechanism that takes TestSteps client
+// messages "k<i>:<user>:<password>" (i = 0 … n-1), answers each but the last
+// with a challenge and asks the permission callback after the last.
+const testMechName = "X-VERIF-STEPS"
+
+func stepsMechanism(n int) sasl.Mechanism {
+	msg := func(k int, pass string) []byte { return []byte(fmt.Sprintf("k%d:%s:%s", k, user, pass)) }
+	return sasl.Mechanism{
+		Name: testMechName,
+		Start: func(m *sasl.Negotiator) (bool, []byte, interface{}, error) {
+			_, p, _ := m.Credentials()
+			return n > 1, msg(0, string(p)), 1, nil
+		},
+		Next: func(m *sasl.Negotiator, challenge []byte, data interface{}) (bool, []byte, interface{}, error) {
+			k, _ := data.(int)
+			if m.State()&sasl.Receiving == 0 {
+				_, p, _ := m.Credentials()
+				return k+1 < n, msg(k, string(p)), k + 1, nil
+			}
+			parts := strings.SplitN(string(challenge), ":", 3)
+			if len(parts) != 3 || parts[0] != fmt.Sprintf("k%d", k) {
+				return false, nil, nil, sasl.ErrInvalidChallenge
+			}
+			if k+1 < n {
+				return true, []byte(fmt.Sprintf("c%d", k+1)), k + 1, nil
+			}
+			if m.Permissions(sasl.Credentials(func() ([]byte, []byte, []byte) {
+				return []byte(parts[1]), []byte(parts[2]), nil
+			})) {
+				return false, nil, nil, nil
+			}
+			return false, nil, nil, sasl.ErrAuthn
+		},
+	}
+}
+
+func mechByName(n string, steps int) sasl.Mechanism {
+	if n == testMechName {
+		return stepsMechanism(steps)
+	}
+	return saslpeer.Mechanisms[n]
+}
 
 func (a *recvAdv) feed(delta []byte) (reply []byte, eof bool) {
 	a.all = append(a.all, delta...)
@@ -1205,6 +1291,10 @@ func (a *recvAdv) realise(kind string) (wire string, e entry, eof bool) {
 	e = entry{Kind: kind, Legit: -1, Carrier: strings.SplitN(kind, "-", 2)[0]}
 	conf := a.sc.ServerMechs
 	pickConf := func() string {
+		conf := without(conf, testMechName) // that one has its own actions
+		if len(conf) == 0 {
+			return "PLAIN"
+		}
 		// prefer PLAIN when configured: it is the only mechanism the receiving
 		// side can complete in this tree
 		if contains(conf, "PLAIN") && a.r.Intn(4) > 0 {
@@ -1281,6 +1371,31 @@ func (a *recvAdv) realise(kind string) (wire string, e entry, eof bool) {
 		wire = sasl1("response", base64.StdEncoding.EncodeToString([]byte("c=biws,r=x,p=AAAA")))
 	case "response-legit":
 		wire = sasl1("response", plainPayload("", user, rightPass))
+	case "xauth", "xauth-badpw":
+		m := testMechName
+		pass := rightPass
+		e.Payload = "legit"
+		if kind == "xauth-badpw" {
+			pass, e.Payload = "wrong-pass", "legit-wrong-password"
+		}
+		e.Carrier, e.Mech = "auth", m
+		a.xstep, a.xpass = 1, pass
+		wire = authXML(&m, base64.StdEncoding.EncodeToString([]byte(fmt.Sprintf("k0:%s:%s", user, pass))))
+	case "xresp":
+		// the legitimate next message of the running exchange (of a fresh one if
+		// none is running: then it is out of place)
+		e.Carrier, e.Payload, e.Step = "response", "legit", a.xstep
+		if a.xstep == 0 {
+			e.Payload = "out-of-place"
+		}
+		if a.xpass == "" {
+			a.xpass = rightPass
+		}
+		wire = sasl1("response", base64.StdEncoding.EncodeToString([]byte(fmt.Sprintf("k%d:%s:%s", a.xstep, user, a.xpass))))
+		a.xstep++
+	case "xresp-bad":
+		e.Carrier, e.Payload = "response", "wrong-step"
+		wire = sasl1("response", base64.StdEncoding.EncodeToString([]byte(fmt.Sprintf("k%d:%s:%s", a.xstep+7, user, rightPass))))
 	case "abort":
 		wire = sasl1("abort", "")
 	case "failure":
@@ -1313,7 +1428,7 @@ func (a *recvAdv) realise(kind string) (wire string, e entry, eof bool) {
 // carried the legitimate message, nothing but neutral input followed it, and
 // the permission callback's last call came after it and said yes to exactly
 // those credentials.
-func acceptReceiver(log []entry, perm []permCall, conf []string) (bool, string) {
+func acceptReceiver(log []entry, perm []permCall, conf []string, testSteps int) (bool, string) {
 	last := -1
 	for i, e := range log {
 		if e.Carrier == "auth" {
@@ -1327,15 +1442,29 @@ func acceptReceiver(log []entry, perm []permCall, conf []string) (bool, string) 
 	if !contains(conf, a.Mech) {
 		return false, "unoffered-mechanism-used"
 	}
-	for _, e := range log[last+1:] {
-		if !neutral(e) && e.Carrier != "eof" {
-			return false, "deviation-after-auth"
-		}
-	}
 	if a.Payload != "legit" && a.Payload != "legit-wrong-password" {
 		return false, "malformed-payload"
 	}
-	if len(perm) == 0 || perm[len(perm)-1].Delivered <= last {
+	steps := 1
+	if a.Mech == testMechName {
+		steps = testSteps
+	}
+	// after the <auth/>: exactly the mechanism's remaining messages, in order
+	next, final := 1, last
+	for i, e := range log[last+1:] {
+		switch {
+		case neutral(e) || e.Carrier == "eof":
+		case e.Carrier == "response" && e.Payload == "legit" && a.Mech == testMechName && e.Step == next && next < steps:
+			next++
+			final = last + 1 + i
+		default:
+			return false, "deviation-after-auth"
+		}
+	}
+	if next < steps {
+		return false, "incomplete-exchange"
+	}
+	if len(perm) == 0 || perm[len(perm)-1].Delivered <= final {
 		return false, "permission-not-asked"
 	}
 	p := perm[len(perm)-1]
@@ -1368,6 +1497,38 @@ func genRecv(r *rand.Rand) *recvScenario {
 	if r.Intn(3) == 0 {
 		sc.Chunk = 1 + r.Intn(40)
 	}
+	if r.Intn(4) == 0 {
+		// a configuration with the application-defined multi-step mechanism and
+		// long restart / abort sequences
+		sc.TestSteps = []int{2, 3, 5, 9, 17, 24}[r.Intn(6)]
+		sc.ServerMechs = append(sc.ServerMechs, testMechName)
+		if r.Intn(2) == 0 {
+			sc.ServerMechs = []string{testMechName}
+		}
+		for k := r.Intn(3) * r.Intn(10); k > 0; k-- { // restarts
+			sc.Script = append(sc.Script, "xauth")
+			for j := r.Intn(3); j > 0; j-- {
+				sc.Script = append(sc.Script, "xresp")
+			}
+		}
+		switch r.Intn(4) {
+		case 0: // cut short by something else
+			sc.Script = append(sc.Script, "xauth", "xresp", recvAlphabet[r.Intn(len(recvAlphabet))])
+		default: // a whole run
+			first := "xauth"
+			if r.Intn(5) == 0 {
+				first = "xauth-badpw"
+			}
+			sc.Script = append(sc.Script, first)
+			for k := 1; k < sc.TestSteps; k++ {
+				sc.Script = append(sc.Script, "xresp")
+			}
+		}
+		if r.Intn(3) == 0 {
+			sc.Script = append(sc.Script, recvAlphabet[r.Intn(len(recvAlphabet))])
+		}
+		return sc
+	}
 	switch r.Intn(10) {
 	case 0, 1:
 		sc.Script = []string{"auth-ok"}
@@ -1390,7 +1551,7 @@ func runReceiver(c *core.Case, sc *recvScenario) {
 	adv := &recvAdv{sc: sc, r: c.Rand, successAt: -1, replyAfter: map[int][]string{}}
 	var mechs []sasl.Mechanism
 	for _, n := range sc.ServerMechs {
-		mechs = append(mechs, saslpeer.Mechanisms[n])
+		mechs = append(mechs, mechByName(n, sc.TestSteps))
 	}
 	var perms []permCall
 	perm := func(n *sasl.Negotiator) bool {
@@ -1445,6 +1606,12 @@ func runReceiver(c *core.Case, sc *recvScenario) {
 	for _, e := range log {
 		c.Count("recv_action_"+e.Kind, 1)
 	}
+	if sc.TestSteps > 0 {
+		c.Count("recv_multi_step_mechanism_cases", 1)
+		if len(log) >= 16 {
+			c.Count("recv_exchanges_of_16_or_more_elements", 1)
+		}
+	}
 	for _, p := range perms {
 		c.Count("recv_perm_calls", 1)
 		if p.Verdict {
@@ -1469,7 +1636,7 @@ func runReceiver(c *core.Case, sc *recvScenario) {
 	if authnByNegotiate && res.delivered < n {
 		n = res.delivered
 	}
-	ok, reason := acceptReceiver(log[:n], perms, sc.ServerMechs)
+	ok, reason := acceptReceiver(log[:n], perms, sc.ServerMechs, sc.TestSteps)
 	lastMech := ""
 	for _, e := range log[:n] {
 		if e.Carrier == "auth" {
@@ -1509,7 +1676,7 @@ func runReceiver(c *core.Case, sc *recvScenario) {
 		if k > len(log) {
 			k = len(log)
 		}
-		if sok, sreason := acceptReceiver(log[:k], perms, sc.ServerMechs); !sok {
+		if sok, sreason := acceptReceiver(log[:k], perms, sc.ServerMechs, sc.TestSteps); !sok {
 			c.Violate("authn:receiver:"+fam+":success-sent:"+sreason,
 				"<success/> was written after %d delivered actions although the exchange is not an accepting one (%s): configured %q, delivered %+v, permission calls %+v",
 				k, sreason, sc.ServerMechs, log, perms)
@@ -1575,7 +1742,56 @@ func enumSizes() (initN, recvN int) {
 	return len(enumMechs) * seqCount(len(initAlphabet), 3), 3 * 2 * seqCount(len(recvAlphabet), 2)
 }
 
+// fixedCases are run at the last case indexes of every tier, so that the
+// counters they feed do not depend on the PRNG.
+var fixedCases = []func(c *core.Case){
+	// a failure, then more from the peer: SCRAM-SHA-1 on offer, PLAIN configured but not offered
+	func(c *core.Case) { fixedInit(c, "Fi", "L", "L") },
+	func(c *core.Case) { fixedInit(c, "Fw", "S0") },
+	func(c *core.Case) { fixedInit(c, "Fe", "L", "S0") },
+	func(c *core.Case) { fixedInit(c, "Fi", "Fi", "S0") },
+	// the multi-step mechanism on the receiving side
+	func(c *core.Case) { fixedRecv(c, 2, "match", 0, true) },    // a short accepted run
+	func(c *core.Case) { fixedRecv(c, 20, "always", 0, true) },  // a long accepted run
+	func(c *core.Case) { fixedRecv(c, 3, "match", 18, true) },   // many restarts, then a run
+	func(c *core.Case) { fixedRecv(c, 3, "always", 22, false) }, // restarts only
+	func(c *core.Case) { fixedRecv(c, 24, "never", 0, true) },   // a long refused run
+	func(c *core.Case) {
+		runReceiver(c, &recvScenario{Role: "receiver", ServerMechs: []string{testMechName}, TestSteps: 5, Perm: "always",
+			Script: []string{"xauth", "xresp", "xresp-bad"}})
+	},
+	func(c *core.Case) {
+		runReceiver(c, &recvScenario{Role: "receiver", ServerMechs: []string{testMechName, "PLAIN"}, TestSteps: 5, Perm: "always",
+			Script: []string{"xauth-badpw", "xresp", "abort"}})
+	},
+}
+
+func fixedInit(c *core.Case, script ...string) {
+	c.Count("init_fixed_failure_then_more", 1)
+	runInitiator(c, &initScenario{Role: "initiator", ClientMechs: []string{"SCRAM-SHA-1", "PLAIN"}, Advertised: []string{"SCRAM-SHA-1"},
+		Password: "pw1", ServerPass: "pw1", Iter: 8, Script: script})
+}
+
+func fixedRecv(c *core.Case, steps int, perm string, restarts int, run bool) {
+	sc := &recvScenario{Role: "receiver", ServerMechs: []string{testMechName}, TestSteps: steps, Perm: perm}
+	for i := 0; i < restarts; i++ {
+		sc.Script = append(sc.Script, "xauth")
+	}
+	if run {
+		sc.Script = append(sc.Script, "xauth")
+		for k := 1; k < steps; k++ {
+			sc.Script = append(sc.Script, "xresp")
+		}
+	}
+	runReceiver(c, sc)
+}
+
 func run(c *core.Case) {
+	if j := c.Prop.Cases(c.Tier) - 1 - c.Index; j >= 0 && j < len(fixedCases) {
+		c.Count("fixed_cases", 1)
+		fixedCases[j](c)
+		return
+	}
 	if c.Tier == "thorough" {
 		in, rn := enumSizes()
 		switch {
@@ -1617,6 +1833,7 @@ func Prop() *core.Prop {
 		"init_channel_binding_matched", "recv_accept_PLAIN", "recv_perm_true", "recv_perm_false",
 		"init_cancel_cases_no_deadline_transport", "init_cancel_cases_deadline_transport", "init_cancel_fired",
 		"init_cancel_fired_multi_step_mechanism",
+		"init_fixed_failure_then_more", "recv_accept_" + testMechName, "recv_exchanges_of_16_or_more_elements",
 		"init_features_sasl_extra_after", "init_features_sasl_extra_before", "init_features_sasl_extra_both",
 		"init_features_sasl_extra_first_choice_not_offered",
 		"overlap_pairs_with_different_offers", "overlap_a_held_after_parse", "overlap_b_sent_auth_while_a_held",
